@@ -149,7 +149,7 @@ CHECKS = {
         note="Trusted: to_val of the containers; for hash containers the order written is taken from iterating the same instance.",
         technique="full source x target container matrix executed on generated element lists",
         level="exploration",
-        quick=NATIVE, thorough=NATIVE + [("msan", 0.1)],
+        quick=NATIVE, thorough=NATIVE + [("msan", 0.03)],
         rule="a case = (element type, source container, target container, element list); non-trivial = source and target differ; distinct by (element type, source, target, bytes)",
         floors={"any": {"cells_ok": 20000, "pair:reference_unknown_length->Vec": 100, "pair:unsized_iterator->array": 20, "pair:HashSet->Vec": 100, "pair:Vec->HashSet": 100, "pair:pair_list->HashMap": 100, "pair:[u8;N]->Bytes": 50}},
     ),
